@@ -326,3 +326,236 @@ def q_polygon(shape, proved, mode='uf', timeout=600, seed=0, bnd=B25):
                     for c in G.corners(box):
                         corner_instances(it, s, r[i], r[i + 1], c, box, proved, rule)
     return finish_query(s, impl, spec, allv, it, timeout, seed, t0)
+
+
+# ------------------------------------------------------------------------------------------------ replay
+def model_pts(model, prefix, k):
+    return [(model[f'{prefix}x{i}'], model[f'{prefix}y{i}']) for i in range(k)]
+
+
+def model_box(model):
+    return tuple(model[n] for n in ('bx0', 'by0', 'bx1', 'by1'))
+
+
+def replay_line(part_sizes, model, dtype='float64'):
+    """real LineArray/MultiLineArray (scalar + array + inds forms) versus the exact oracle"""
+    import spatialpandas.geometry as sg
+    parts = [model_pts(model, f'p{pi}', k) for pi, k in enumerate(part_sizes)]
+    box = model_box(model)
+    flat = [[c for v in p for c in v] for p in parts]
+    if len(parts) == 1:
+        arr = sg.LineArray([flat[0]], dtype=dtype)
+    else:
+        arr = sg.MultiLineArray([flat], dtype=dtype)
+    got = {'array': bool(arr.intersects_bounds(box)[0]), 'inds': bool(arr.intersects_bounds(box, inds=np.array([0]))[0]),
+           'scalar': bool(arr[0].intersects_bounds(box))}
+    want = any(G.line_box_x(p, box) for p in parts)
+    in_domain = box[0] != box[2] and box[1] != box[3]
+    return got, want, in_domain, {'parts': parts, 'box': box, 'dtype': dtype, 'kind': 'line' if len(parts) == 1 else 'multiline'}
+
+
+def replay_multipoint(k, model, dtype='float64'):
+    import spatialpandas.geometry as sg
+    pts = model_pts(model, '', k)
+    box = model_box(model)
+    arr = sg.MultiPointArray([[c for v in pts for c in v]], dtype=dtype)
+    got = {'array': bool(arr.intersects_bounds(box)[0]), 'inds': bool(arr.intersects_bounds(box, inds=np.array([0]))[0]),
+           'scalar': bool(arr[0].intersects_bounds(box))}
+    nb = G.norm_box(box)
+    want = any(nb[0] <= x <= nb[2] and nb[1] <= y <= nb[3] for x, y in pts)
+    return got, want, True, {'points': pts, 'box': box, 'dtype': dtype, 'kind': 'multipoint'}
+
+
+def replay_polygon(shape, model, dtype='float64'):
+    import spatialpandas.geometry as sg
+    polys = []
+    for pi, ring_sizes in enumerate(shape):
+        rings = []
+        for ri, m in enumerate(ring_sizes):
+            vs = model_pts(model, f'g{pi}r{ri}', m)
+            rings.append(vs + [vs[0]] if m else [])
+        polys.append(rings)
+    box = model_box(model)
+    flat = [[[c for v in r for c in v] for r in rings] for rings in polys]
+    if len(polys) == 1:
+        arr = sg.PolygonArray([flat[0]], dtype=dtype)
+    else:
+        arr = sg.MultiPolygonArray([flat], dtype=dtype)
+    got = {'array': bool(arr.intersects_bounds(box)[0]), 'inds': bool(arr.intersects_bounds(box, inds=np.array([0]))[0]),
+           'scalar': bool(arr[0].intersects_bounds(box))}
+    res = [G.polygon_box_x(rings, box) for rings in polys]
+    want = any(a for a, _ in res)
+    unamb = all(u for _, u in res)
+    in_domain = box[0] != box[2] and box[1] != box[3] and unamb
+    return got, want, in_domain, {'polygons': polys, 'box': box, 'dtype': dtype,
+                                  'kind': 'polygon' if len(polys) == 1 else 'multipolygon'}
+
+
+def judge(check, name, replay, key_prefix):
+    """-> 'violation' | 'known' | 'spurious' | 'out-of-domain'"""
+    got, want, in_domain, wit = replay
+    bad = {k: v for k, v in got.items() if v != want}
+    if not bad:
+        return 'spurious'
+    if not in_domain:
+        return 'out-of-domain'
+    wit.update({'got': got, 'expected': want, 'obligation': name})
+    r = check.violation(f"{key_prefix}:{wit['kind']}", f"intersects_bounds={got} but exact oracle says {want} ({name})", wit)
+    return 'known' if r == 'known' else 'violation'
+
+
+# ------------------------------------------------------------------------------------------------ driver
+QUICK = {
+    'multipoint': [0, 1, 2, 4],
+    'line': [[1], [2], [3], [4], [2, 2], [1, 3]],
+    'line_exact': [[2]],
+    'polygon': [[[1]], [[2]], [[3]], [[4]]],
+}
+THOROUGH = {
+    'multipoint': [0, 1, 2, 4, 6],
+    'line': [[1], [2], [3], [4], [6], [8], [2, 2], [1, 3], [3, 3], [2, 2, 2]],
+    'line_exact': [[2], [3]],
+    'polygon': [[[1]], [[2]], [[3]], [[4]], [[5]], [[3, 3]], [[4, 3]], [[3], [3]], [[6]]],
+}
+
+
+def run_kernels(check, pool, Task):
+    tier = check.tier
+    plan = THOROUGH if tier == 'thorough' else QUICK
+    seeds = 4 if tier == 'thorough' else 2
+    cap = 900 if tier == 'thorough' else 400
+    check.bounds.update({'coordinates': '|v| <= 2^25 (integers; dyadic rationals reduce to integers by homogeneity)',
+                         'kernel_structures': plan})
+    check.assumptions += [
+        'box of positive width and height for line/polygon kinds (degenerate boxes included for multipoints)',
+        'rings closed (first vertex repeated as last)',
+        "every hole's vertices inside the shell's bounding box (consequence of validity)",
+        'symbolic x symbolic products are an uninterpreted function constrained only by instances of lemmas proved in this run',
+        'prange executed sequentially',
+    ]
+    # ---- phase A: lemmas
+    names = ['LS', 'L2', 'LB', 'E1down', 'E1up', 'E2', 'E34', 'S0']
+    tasks = [Task(f'lemma:{n}#{s}', lemma, (n,), {'seed': s + check.seed, 'timeout': 240}, timeout=300, group='lemma:' + n)
+             for n in names for s in range(seeds)]
+    res = pool(tasks)
+    proved = set()
+    for n in names:
+        r = res.get('lemma:' + n, {'status': 'error', 'detail': 'no result'})
+        if r['status'] == 'unsat':
+            proved.add(n)
+        if n in ('E1down', 'E1up'):
+            continue
+        if r['status'] == 'sat':
+            # a refuted lemma is not a violation: the decomposition may have changed; dependent queries go on
+            # without it and the exact witness search decides
+            check.record('lemma:' + n, dict(r, status='unsat-not-established', detail=f"lemma refuted, model {r.get('model')}"), 'lemma')
+            check.log(f"lemma {n} REFUTED (model {r.get('model')}); kernel queries run without it")
+        else:
+            check.record('lemma:' + n, r, 'lemma')
+    e1 = [res.get('lemma:E1down', {}), res.get('lemma:E1up', {})]
+    if any(r.get('status') == 'unsat' for r in e1):
+        best = [r for r in e1 if r.get('status') == 'unsat'][0]
+        check.record('lemma:E1 (per-edge contribution == half-open rule, either convention)', best, 'lemma')
+    else:
+        check.record('lemma:E1 (per-edge contribution == half-open rule, either convention)',
+                     {'status': 'unsat-not-established', 'detail': f"both conventions failed: {[r.get('status') for r in e1]}",
+                      'solver_s': sum(r.get('solver_s') or 0 for r in e1)}, 'lemma')
+    failed_lemmas = [n for n in ('LS', 'L2', 'LB', 'E2', 'E34') if n not in proved] + ([] if pick_rule(proved) else ['E1'])
+    check.extra['lemmas_proved'] = sorted(proved)
+    # ---- phase B: kernel queries
+    tasks = []
+    for k in plan['multipoint']:
+        tasks.append(Task(f'kernel:multipoint k={k}', q_multipoint, (k,), {'timeout': cap, 'seed': check.seed}, timeout=cap + 60,
+                          meta={'kind': 'multipoint', 'k': k}))
+    for ps in plan['line']:
+        tasks.append(Task(f'kernel:line parts={ps} (UF+lemmas)', q_line, (ps, proved), {'timeout': cap, 'seed': check.seed},
+                          timeout=cap + 60, meta={'kind': 'line', 'parts': ps}))
+    for ps in plan['line_exact']:
+        tasks.append(Task(f'kernel:line parts={ps} (exact, monolithic)', q_line, (ps, proved),
+                          {'mode': 'exact', 'timeout': cap, 'seed': check.seed}, timeout=cap + 60, meta={'kind': 'line', 'parts': ps, 'exact': True}))
+    for sh in plan['polygon']:
+        tasks.append(Task(f'kernel:polygon rings={sh} (UF+lemmas)', q_polygon, (sh, proved), {'timeout': cap, 'seed': check.seed},
+                          timeout=cap + 60, meta={'kind': 'polygon', 'shape': sh}))
+    tasks.sort(key=lambda t: -sum(map(lambda x: sum(x) if isinstance(x, list) else x, t.meta.get('shape', []) or [0])))
+    res = pool(tasks)
+    need_search = set()
+    for t in tasks:
+        r = res.get(t.name, {'status': 'error', 'detail': 'no result'})
+        meta = t.meta
+        if r['status'] == 'sat':
+            verdict = replay_model(check, t.name, meta, r['model'])
+            if verdict in ('violation', 'known'):
+                check.record(t.name, dict(r, status='violated' if verdict == 'violation' else 'known-finding'), 'kernel', meta)
+                continue
+            # spurious UF model or out-of-domain witness: exact search decides
+            need_search.add(meta['kind'])
+            check.record(t.name, dict(r, status='candidate-' + verdict, detail=f"solver candidate did not reproduce ({verdict})"), 'kernel', meta)
+            check.log(f"{t.name}: candidate {verdict}; falling back to exact witness search")
+        else:
+            if r['status'] != 'unsat':
+                need_search.add(meta['kind'])
+            check.record(t.name, r, 'kernel', meta)
+    if failed_lemmas:
+        need_search |= {'line', 'polygon'}
+    # ---- phase C: exact witness search where the compositional scheme was not conclusive
+    if need_search:
+        found = witness_search(check, pool, Task, need_search)
+        pending = [o for o in check.obligations if str(o['status']).startswith(('candidate-', 'unsat-not-established'))]
+        for o in pending:
+            if not found:
+                check.inconc(f"{o['name']}: {o['status']} and the exact witness search found no reproducible counterexample")
+
+
+def replay_model(check, name, meta, model, dtypes=('float64',)):
+    verdicts = []
+    for dt in dtypes:
+        try:
+            if meta['kind'] == 'multipoint':
+                rp = replay_multipoint(meta['k'], model, dt)
+            elif meta['kind'] == 'line':
+                rp = replay_line(meta['parts'], model, dt)
+            else:
+                rp = replay_polygon(meta['shape'], model, dt)
+        except Exception as e:  # noqa: BLE001
+            check.harness_error(f"replay of {name} failed: {type(e).__name__}: {e}")
+            return 'spurious'
+        verdicts.append(judge(check, name, rp, 'C01'))
+    for v in ('violation', 'known', 'out-of-domain'):
+        if v in verdicts:
+            return v
+    return 'spurious'
+
+
+def witness_search(check, pool, Task, kinds):
+    """exact-arithmetic queries (no UF, no lemma) on the smallest structures; sat answers are fast"""
+    tasks = []
+    if 'line' in kinds:
+        for ps in ([2], [3], [2, 2]):
+            for s in range(2):
+                tasks.append(Task(f'search:line parts={ps}#{s}', q_line, (ps, set()), {'mode': 'exact', 'timeout': 150, 'seed': s},
+                                  timeout=200, group=f'search:line parts={ps}', meta={'kind': 'line', 'parts': ps}))
+    if 'polygon' in kinds:
+        for sh in ([[3]], [[4]], [[3, 3]], [[3], [3]]):
+            for s in range(2):
+                tasks.append(Task(f'search:polygon rings={sh}#{s}', q_polygon, (sh, set()), {'mode': 'exact', 'timeout': 150, 'seed': s},
+                                  timeout=200, group=f'search:polygon rings={sh}', meta={'kind': 'polygon', 'shape': sh}))
+    if 'multipoint' in kinds:
+        tasks.append(Task('search:multipoint k=2', q_multipoint, (2,), {'timeout': 100}, timeout=150, meta={'kind': 'multipoint', 'k': 2}))
+    res = pool(tasks)
+    found = False
+    seen = set()
+    for t in tasks:
+        if t.group in seen:
+            continue
+        seen.add(t.group)
+        r = res.get(t.group)
+        if r is None:
+            continue
+        if r['status'] == 'sat':
+            v = replay_model(check, t.group, t.meta, r['model'])
+            check.record(t.group, dict(r, status={'violation': 'violated', 'known': 'known-finding'}.get(v, 'candidate-' + v)), 'search', t.meta)
+            found = found or v in ('violation', 'known')
+        else:
+            # a time-out here is expected on a correct tree (the monolithic query is hard) and decides nothing
+            check.record(t.group, dict(r, status='search-' + str(r['status'])), 'search', t.meta)
+    return found
